@@ -17,6 +17,8 @@ mod data_struct;
 mod encrypted_header;
 
 pub mod api;
+#[cfg(feature = "cosmian_cover_crypt_verif")]
+mod verif_model;
 pub mod traits;
 
 pub use abe_policy::{AccessStructure, EncryptionHint, QualifiedAttribute};
